@@ -395,7 +395,7 @@ pub fn derive_from_untyped_inner(input: DeriveInput) -> Result<TokenStream> {
 
 			impl #impl_generics FromUntyped for #ident #ty_generics #where_clause {
 				fn from_untyped(value: Val) -> JrResult<Self> {
-					let obj = value.as_obj().expect("shape is correct");
+					let obj = <ObjValue as FromUntyped>::from_untyped(value)?;
 					Self::parse(&obj)
 				}
 			}
